@@ -34,6 +34,10 @@ def NRC(name, values):
     return dict(kind="nrcconst", name=name, type={"dt": "A_UINT32", "bl": 8}, values=list(values))
 
 
+def PC(name, value, bl=8):
+    return dict(kind="physconst", name=name, dop={"dt": "A_UINT32", "bl": bl}, value=value)
+
+
 def rq(*params):
     ps = list(params)
     if ps and ps[0].get("bytepos") is None:
@@ -101,6 +105,14 @@ LAYERS = {
         {"name": "B", "request": rq(C("sid", 0x11), V("x"))},
     ], "gnr": [rq(C("sid", 0x7F), MR("rsid"), NRC("nrc", [0x10, 0x21])),
                rq(C("sid", 0x7F), MR("rsid"), NRC("nrc", [0x78]), V("more"))]},
+    # coding objects that differ only by a PHYS-CONST directly behind the coded constants (a
+    # constant for the purpose of matching; identical compu method, fixed length)
+    "physconst-discriminates": {"services": [
+        {"name": "A", "request": rq(C("sid", 0x22), PC("did", 0x10), V("x")),
+         "pos": [rq(C("sid", 0x62), PC("pc", 1), V("a")), rq(C("sid", 0x62), PC("pc", 2), V("b", 16))]},
+        {"name": "B", "request": rq(C("sid", 0x22), PC("did", 0x11)),
+         "pos": [rq(C("sid", 0x62), PC("pc", 3), V("c"))]},
+    ]},
     "sid-16-bit": {"services": [
         {"name": "A", "request": rq(C("sid", 0x2201, 16), V("x"))},
         {"name": "B", "request": rq(C("sid", 0x22, 8), C("did", 0x02, 8), V("y"))},
@@ -116,6 +128,8 @@ def prefix_of(params, request_prefix=b""):
     for p in params:
         if p["kind"] == "const":
             out += list(int(p["value"]).to_bytes(p["type"]["bl"] // 8, "big"))
+        elif p["kind"] == "physconst":
+            out += list(int(p["value"]).to_bytes(p["dop"]["bl"] // 8, "big"))
         elif p["kind"] == "matchreq" and p["rqpos"] < len(request_prefix):
             if len(request_prefix) < p["rqpos"] + p["len"]:
                 break
@@ -130,7 +144,7 @@ def obj_len(params):
     for p in params:
         if p["kind"] == "const":
             n += p["type"]["bl"] // 8
-        elif p["kind"] == "value":
+        elif p["kind"] in ("value", "physconst"):
             n += p["dop"]["bl"] // 8
         elif p["kind"] == "matchreq":
             n += p["len"]
@@ -150,7 +164,7 @@ def obj_matches(params, M, request_prefix):
     for p in params:
         k = p["kind"]
         n = {"const": lambda: p["type"]["bl"] // 8, "value": lambda: p["dop"]["bl"] // 8,
-             "matchreq": lambda: p["len"], "nrcconst": lambda: 1}[k]()
+             "physconst": lambda: p["dop"]["bl"] // 8, "matchreq": lambda: p["len"], "nrcconst": lambda: 1}[k]()
         v = 0
         for i in range(n):
             v = (v << 8) | M[pos + i]
